@@ -140,6 +140,7 @@ func bastionE2EMain(args []string) error {
 	out := fs.String("out", "", "trace")
 	dir := fs.String("dir", os.TempDir(), "scratch")
 	seed := fs.Int64("seed", 1, "seed")
+	legacy := fs.Bool("legacy", false, "with -prod: the database file already exists, written the way the pinned release writes it, and holds an acknowledged checkpoint of size 1 for l1 of every run")
 	prod := fs.String("prod", "", "production binary: the witness side is cmd/omniwitness (SQLite file) instead of the exported FeedBastion in a child of this driver")
 	limit := fs.Float64("limit", 100000, "configured rate limit (requests per second) of the witness side; the runs' own limit field is ignored")
 	_ = fs.Parse(args)
@@ -162,6 +163,25 @@ func bastionE2EMain(args []string) error {
 	var extLock func() (func(), error)
 	if *prod != "" {
 		db := filepath.Join(*dir, fmt.Sprintf("bastion-e2e-prod-%d-%d.db", *seed, os.Getpid()))
+		if *legacy {
+			os.Remove(db)
+			raw, err := sql.Open("sqlite3", db)
+			if err != nil {
+				return err
+			}
+			if _, err := raw.Exec(pinnedSchema); err != nil {
+				return err
+			}
+			for _, w := range ws {
+				c := w.Concretise("l1", legacyS1, nil)
+				note := string(c.CP) + w.WitKey.SignLegacy(c.Text) + w.WitKey.SignCosigV1(c.Text, uint64(time.Now().Unix()))
+				// (the log ID bound as a Go string, as the release binds it)
+				if _, err := raw.Exec("INSERT OR REPLACE INTO chkpts (logID, chkpt, range) VALUES (?, ?, NULL)", c.LogID, []byte(note)); err != nil {
+					return err
+				}
+			}
+			raw.Close()
+		}
 		extLock = func() (func(), error) {
 			// a second connection to the same file: BEGIN; SELECT ... leaves a SHARED lock until the transaction ends
 			other, err := sql.Open("sqlite3", db)
